@@ -25,11 +25,15 @@ PROPS = {
                    "returns the key of the unique leader-eligible validator in the slot the statement prescribes (round-robin: "
                    "(view/frequency) mod #eligible, frequency 0 => turn 0; weighted: the slot whose cumulative-weight interval "
                    "contains keccak(turn) mod leader_weight). Lemmas: slot uniqueness, frequency-0 never rotates, round-robin "
-                   "rotation by one every `frequency` views, each eligible validator owns exactly weight-many residues.",
+                   "rotation by one every `frequency` views, each eligible validator owns exactly weight-many residues. "
+                   "Schedule::new: Ok => the well-formedness invariant (non-empty, positive weights, leaders = exactly the eligible indices in "
+                   "increasing order, total/leader weight = the sums, no overflow, key index = inverse of the vector), sorted by key, same "
+                   "multiset as the input. Schedule::contains/index/len/total_weight/leaders against that invariant.",
         level_note="Trusted: num_bigint::BigUint operations and keccak256 as documented (assumed contracts, listed in evidence); "
                    "uniform distribution of keccak is not assumed, so 'proportional share' is proved in its combinatorial form. "
-                   "Schedule::wf() (what Schedule::new establishes) is a precondition; order-independence of the schedule "
-                   "listing rests on Schedule::new sorting by key (BTreeMap) and is not re-proved here.",
+                   "Schedule::wf() is PROVED to be established by Schedule::new (also under contract here): the validators are stored "
+                   "sorted by key and are a permutation of the given listing, so the listing order is irrelevant; BTreeMap is modelled as a "
+                   "key-ordered sequence (A1) over an uninterpreted strict order on keys (blst); `for v in validators` is taken over a Vec.",
         technique="contract-based deductive verification (Verus on extracted real functions, loop invariant + lemmas)",
         design_ref="DESIGN.md §5 C11",
         assumptions=[],
